@@ -200,6 +200,125 @@ def jobs_C15_fuzz(tier, scale):
             fuzz_job("text", "rawtext", "C15", tier, scale, 400000, 16000000, "libFuzzer: arbitrary bytes as text for index/name loader x none/string/int labels; returns or throws std::exception; differential when well-formed")]
 
 
+# ------------------------------------------------------------------ C17
+def c17_streams(tier, scale):
+    """the seeded case streams of the other properties that are re-run under several builds"""
+    q = tier == "quick"
+    n = lambda a, b: _n(tier, a, b, scale)
+    st = []
+    def hist(name, prop, classes, mix, cases, **cfg):
+        c = dict(prop=prop, classes=classes, mix=_mix(mix))
+        c.update({k: str(v) for k, v in cfg.items()})
+        st.append(dict(name=name, executor="hist", gen="hist", cfg=c, cases=cases, max_size=40))
+    hist("C01", "C01", _classes(["DS", "DL"], ["int", "string", "struct"]), dict(add=45, recip=12, rm=20, rmloops=5, rmvtx=6, clear=4, resize=8), n(1200, 20000))
+    hist("C02", "C02", _classes(["US", "UL"], ["int", "string", "struct"]), dict(add=50, rm=22, rmloops=6, rmvtx=9, clear=4, resize=8), n(1200, 20000))
+    hist("C03", "C03", _classes(["DL", "UL"], L6), dict(add=38, setl=22, rm=12, rmloops=6, rmvtx=8, clear=5, resize=4, recip=5), n(1200, 20000))
+    hist("C04", "C04", _classes(["DM", "UM"]), dict(add1=15, add=25, recip1=3, recip=3, rm=10, rmk=12, setm=15, rmloops=5, rmvtx=6, clear=3, resize=4), n(1200, 20000))
+    hist("C05", "C05", _classes(["DW", "UW"]), dict(add=35, setw=25, rm=12, rmloops=6, rmvtx=8, clear=4, resize=5), n(1200, 20000), mode="exact")
+    hist("C16", "C16", _classes(["DS", "US", "DL", "UL", "DW", "UW"], ["int", "string"]), dict(add=55, rm=15, dedup=15, resize=5), n(1200, 20000), force=50, pairvalues=1)
+    hist("C16m", "C16", _classes(["DM", "UM"]), dict(add=85, dedup=8, resize=5), n(600, 10000), force=100, pairvalues=1, final="dedup")
+    st.append(dict(name="C06", executor="eq", gen="eq", cfg=jobs_C06(tier, scale)[0]["cfg"], cases=n(1200, 20000), max_size=35))
+    st.append(dict(name="C11", executor="bfs", gen="graph", cfg=dict(prop="C11", classes=_classes(["DS", "US", "DL", "UL"], ["int"]), nmax="9"), cases=n(800, 15000), max_size=50))
+    st.append(dict(name="C12", executor="dij", gen="graph", cfg=dict(prop="C12", classes=_classes(["DW", "UW"]), nmax="12", xmax="17", extra="wmode int"), cases=n(800, 15000), max_size=50))
+    st.append(dict(name="C08", executor="iter", gen="graph", cfg=dict(prop="C08", classes=_classes(ALL8, ["int", "string"]), nmax="8", pads="1"), cases=n(800, 15000), max_size=50))
+    return st
+
+
+def jobs_C17(tier, scale):
+    configs = ["san", "plain", "o0"] if tier == "quick" else ["san", "plain", "o0", "clangasan", "gccO2"]
+    jobs = []
+    for si, stream in enumerate(c17_streams(tier, scale)):
+        for config in configs:
+            jobs.append(dict(engine="pbt", executor=stream["executor"], config=config, gen=stream["gen"], cfg=dict(stream["cfg"]), cases=stream["cases"], shards=1,
+                             max_size=stream["max_size"], seed_group=100 + si, stream=stream["name"], extra=dict(dump=1),
+                             label="stream %s under build %s" % (stream["name"], config)))
+    if tier != "quick":
+        # uninitialised reads: valgrind memcheck on a sample of every stream (o0 build); MSan is unusable here
+        for si, stream in enumerate(c17_streams(tier, scale)):
+            jobs.append(dict(engine="pbt", executor=stream["executor"], config="o0", gen=stream["gen"], cfg=dict(stream["cfg"]), cases=300, shards=1, max_size=30,
+                             seed_group=300 + si, stream=stream["name"], extra=dict(valgrind=1), label="stream %s under valgrind memcheck (o0 build)" % stream["name"], timeout=7200))
+        jobs.append(fuzz_job("hist", "hist", "C17", tier, scale, 0, 4000000, "libFuzzer structure-aware histories (all 18 class/label configurations, forced-duplicate mode included)", max_len=400))
+    return jobs
+
+
+def c17_post_merge(ctx):
+    """oracle 2: for every stream, the per-case digests of everything observed are identical across build configurations"""
+    import json as _json
+    jobs, results = ctx["jobs"], ctx["results"]
+    by_stream = {}
+    for r in results:
+        j = jobs[r["job"]]
+        if not r.get("dump") or j.get("extra", {}).get("valgrind"):
+            continue
+        by_stream.setdefault(j["stream"], []).append((j["config"], r))
+    violations, broken = [], []
+    compared = 0
+    pairs = 0
+    for stream, runs in sorted(by_stream.items()):
+        base_cfg, base = runs[0]
+        try:
+            base_lines = [_json.loads(l) for l in open(base["dump"])]
+        except Exception as e:
+            broken.append("stream %s: cannot read the digest dump of build %s (%s)" % (stream, base_cfg, e))
+            continue
+        for cfg, r in runs[1:]:
+            try:
+                lines = [_json.loads(l) for l in open(r["dump"])]
+            except Exception as e:
+                broken.append("stream %s: cannot read the digest dump of build %s (%s)" % (stream, cfg, e))
+                continue
+            pairs += 1
+            n = min(len(base_lines), len(lines))
+            for k in range(n):
+                a, b = base_lines[k], lines[k]
+                if a["text"] != b["text"]:
+                    broken.append("stream %s: builds %s and %s were fed different cases at index %d (front-end not deterministic)" % (stream, base_cfg, cfg, k))
+                    break
+                compared += 1
+                if a["digest"] != b["digest"] or a["verdict"] != b["verdict"]:
+                    ex = jobs[r["job"]]["executor"]
+                    violations.append(dict(case="# differential: %s %s %s\n" % (ex, base_cfg, cfg) + a["text"],
+                                           message="the same case gives different observations under build %s (digest %s, verdict %s) and build %s (digest %s, verdict %s): "
+                                                   "results depend on compiler / optimisation level / checking mode" % (base_cfg, a["digest"], a["verdict"], cfg, b["digest"], b["verdict"]),
+                                           key="differential|%s|%s-vs-%s" % (stream, base_cfg, cfg), executor=ex, config=base_cfg, crashed=False))
+                    break
+            else:
+                if len(base_lines) != len(lines) and not (base["stats"] or {}).get("failed") and not (r["stats"] or {}).get("failed"):
+                    broken.append("stream %s: builds %s and %s evaluated %d vs %d cases" % (stream, base_cfg, cfg, len(base_lines), len(lines)))
+    return dict(violations=violations, broken=broken, coverage=dict(differential_cases_compared=compared, differential_build_pairs=pairs))
+
+
+def c17_replay(pid, path, text):
+    """differential replays run the case under both builds and compare the digests"""
+    import re
+    import shutil
+    from . import build, runner
+    m = re.search(r"^# differential: (\S+) (\S+) (\S+)", text, re.M)
+    if not m:
+        return None
+    ex, ca, cb = m.groups()
+    try:
+        bins = build.build_many([("replay", ex, ca), ("replay", ex, cb)])
+    except build.BuildError as e:
+        runner.log("BUILD FAILED\n" + e.log)
+        return 2
+    scratch = runner.make_scratch()
+    try:
+        outs = {}
+        for cfg in (ca, cb):
+            rc, out = runner.replay_case(bins[("replay", ex, cfg)], text, scratch, cfg)
+            dg = re.search(r"^digest: (\S+)", out, re.M)
+            outs[cfg] = (rc, dg.group(1) if dg else None)
+            print("build %s: rc=%s digest=%s" % (cfg, rc, outs[cfg][1]))
+    finally:
+        shutil.rmtree(scratch, ignore_errors=True)
+    if outs[ca] != outs[cb] or runner.failing(outs[ca][0]):
+        print("VIOLATION property=%s replay=%s" % (pid, path))
+        return 1
+    print("replay passes: both builds agree")
+    return 0
+
+
 RULE_HIST = ("rapidcheck-generated call histories (0-%d ops, sizes 0-12) executed against the real class and an independent std::map model; "
              "all public observers compared after every step. ")
 
@@ -292,6 +411,13 @@ PROPS = {
                 "index tokens whose value needs more than 2^16 vertices are outside the domain, -1 is inside). ASan+UBSan on. Non-trivial: a cut strictly inside a record; a text input with "
                 ">=1 line the reference parser rejects and >=1 it accepts.",
                 assumptions=["vertex indices kept small enough to allocate (documented domain restriction of the property)"]),
+    "C17": dict(jobs=jobs_C17, min_nontrivial=dict(quick=1000, thorough=10000), post_merge=c17_post_merge, replay_hook=c17_replay,
+                rule="the seeded case streams of C01-C06, C08, C11, C12 and C16 (same rapidcheck seeds, hence identical cases) executed under several builds of the same executors: "
+                "g++ -O1 ASan+UBSan+_GLIBCXX_DEBUG(_PEDANTIC), clang++ -O2, g++ -O0 (thorough adds clang++ -O0 ASan and g++ -O2 _GLIBCXX_ASSERTIONS). Oracle 1: no sanitizer report, no libstdc++ "
+                "debug-mode abort, no crash in any build. Oracle 2: the per-case digest of every exact snapshot / search result is identical in all builds. Thorough adds a structure-aware libFuzzer "
+                "target over histories and 300 cases per stream under valgrind memcheck (the only detector of uninitialised reads available: MSan has no instrumented libstdc++ here, so that clause "
+                "is sampled much more thinly). Non-trivial by the rule of the stream's own property; distinct by case text.",
+                assumptions=["libstdc++ is not instrumented: accesses inside it are judged only through its debug-mode checks"]),
     "C16": dict(jobs=jobs_C16, min_nontrivial=dict(quick=300, thorough=3000),
                 rule=RULE_HIST % 80 + "Non-trivial: a forced duplicate exists and is later removed by removeDuplicateEdges or removeEdge.",
                 assumptions=["all copies of a pair carry the same label/weight/multiplicity (by construction)", "multigraph: weaker reading (deduplicated graph holds each pair once with the multiplicity its copies carried)"]),
